@@ -170,22 +170,22 @@ theorem mu_splice_lt {T : Table} {a : Alias} {c0 : SChar} {name : String}
 /-- Everything `step` computes, in one record-free statement: either a substitution (with all the
     eligibility facts) or the consumption of one token. -/
 inductive StepRel (T : Table) (s s' : MState) : Prop
-  | subst (k : Nat) (c0 : SChar) (tl : List SChar) (a : Alias) (cmd : Bool) (name : String) (asg : Bool)
-      (hdrop : s.rest.drop k = c0 :: tl)
+  | subst (c0 : SChar) (tl : List SChar) (a : Alias) (cmd : Bool) (name : String) (asg : Bool)
+      (hdrop : s.rest.drop (skipLen s.rest) = c0 :: tl)
       (hkind : (lexTok (c0 :: tl)).kind = .word (some name) asg)
       (hsub : (trans s.st (lexTok (c0 :: tl)).kind).sub = some cmd)
       (hnot : c0.isAliasFor name = false)
       (hlook : T.lookup name = some a)
       (hwhy : cmd = true ∨ a.global = true ∨
-        afterBlank ((markLc (s.rest.take k)).reverse ++ s.pre) (some c0) = true)
-      (hpre : s'.pre = (markLc (s.rest.take k)).reverse ++ s.pre)
+        afterBlank ((markLc (s.rest.take (skipLen s.rest))).reverse ++ s.pre) (some c0) = true)
+      (hpre : s'.pre = (markLc (s.rest.take (skipLen s.rest))).reverse ++ s.pre)
       (hrest : s'.rest = spliceChars a c0 ++ tl.drop ((lexTok (c0 :: tl)).len - 1))
-  | take (k : Nat) (c0 : SChar) (tl : List SChar)
-      (hdrop : s.rest.drop k = c0 :: tl)
-      (hel : eligible T ((markLc (s.rest.take k)).reverse ++ s.pre) c0 (lexTok (c0 :: tl)).kind
+  | take (c0 : SChar) (tl : List SChar)
+      (hdrop : s.rest.drop (skipLen s.rest) = c0 :: tl)
+      (hel : eligible T ((markLc (s.rest.take (skipLen s.rest))).reverse ++ s.pre) c0 (lexTok (c0 :: tl)).kind
               (trans s.st (lexTok (c0 :: tl)).kind).sub = none)
       (hpre : s'.pre = (tl.take ((lexTok (c0 :: tl)).len - 1)).reverse ++ c0 ::
-                ((markLc (s.rest.take k)).reverse ++ s.pre))
+                ((markLc (s.rest.take (skipLen s.rest))).reverse ++ s.pre))
       (hrest : s'.rest = tl.drop ((lexTok (c0 :: tl)).len - 1))
 
 theorem step_rel {T : Table} {s s' : MState} (h : step T s = some s') : StepRel T s s' := by
@@ -198,10 +198,10 @@ theorem step_rel {T : Table} {s s' : MState} (h : step T s = some s') : StepRel 
     · rename_i a hel
       cases h
       obtain ⟨cmd, name, asg, hsub, hkind, hnot, hlook, hwhy⟩ := eligible_spec hel
-      exact .subst _ c0 tl a cmd name asg hdrop hkind hsub hnot hlook hwhy rfl rfl
+      exact .subst c0 tl a cmd name asg hdrop hkind hsub hnot hlook hwhy rfl rfl
     · rename_i hel
       cases h
-      exact .take _ c0 tl hdrop hel rfl rfl
+      exact .take c0 tl hdrop hel rfl rfl
 
 theorem mem_rest_of_drop {s : MState} {k : Nat} {c0 : SChar} {tl : List SChar}
     (hdrop : s.rest.drop k = c0 :: tl) : c0 ∈ s.rest ∧ ∀ c ∈ tl, c ∈ s.rest := by
@@ -220,15 +220,15 @@ theorem inv_step {T : Table} {s s' : MState} (hi : Inv T s) (h : step T s = some
     · exact markLc_good (fun c hc => hr c (List.mem_of_mem_take hc)) c (List.mem_reverse.mp h1)
     · exact hp c h2
   cases step_rel h with
-  | subst k c0 tl a cmd name asg hdrop hkind hsub hnot hlook hwhy hpre hrest =>
+  | subst c0 tl a cmd name asg hdrop hkind hsub hnot hlook hwhy hpre hrest =>
     obtain ⟨hc0, htl⟩ := mem_rest_of_drop hdrop
-    refine ⟨by rw [hpre]; exact hbefore k, ?_⟩
+    refine ⟨by rw [hpre]; exact hbefore (skipLen s.rest), ?_⟩
     rw [hrest]
     intro c hc
     rcases List.mem_append.mp hc with h1 | h2
     · exact splice_good (hr c0 hc0) hlook hnot c h1
     · exact hr c (htl c (List.mem_of_mem_drop h2))
-  | take k c0 tl hdrop hel hpre hrest =>
+  | take c0 tl hdrop hel hpre hrest =>
     obtain ⟨hc0, htl⟩ := mem_rest_of_drop hdrop
     refine ⟨?_, ?_⟩
     · rw [hpre]
@@ -237,7 +237,7 @@ theorem inv_step {T : Table} {s s' : MState} (hi : Inv T s) (h : step T s = some
       · exact hr c (htl c (List.mem_of_mem_take (List.mem_reverse.mp h1)))
       · rcases List.mem_cons.mp h2 with rfl | h3
         · exact hr _ hc0
-        · exact hbefore k c h3
+        · exact hbefore (skipLen s.rest) c h3
     · rw [hrest]
       intro c hc
       exact hr c (htl c (List.mem_of_mem_drop hc))
@@ -247,17 +247,17 @@ theorem mu_step {T : Table} {s s' : MState} (hi : Inv T s) (h : step T s = some 
     mu T s'.rest < mu T s.rest := by
   obtain ⟨_, hr⟩ := hi
   cases step_rel h with
-  | subst k c0 tl a cmd name asg hdrop hkind hsub hnot hlook hwhy hpre hrest =>
+  | subst c0 tl a cmd name asg hdrop hkind hsub hnot hlook hwhy hpre hrest =>
     obtain ⟨hc0, _⟩ := mem_rest_of_drop hdrop
-    have h1 := mu_take_drop T s.rest k
+    have h1 := mu_take_drop T s.rest (skipLen s.rest)
     rw [hdrop] at h1
     have h2 := mu_take_drop T tl ((lexTok (c0 :: tl)).len - 1)
     have h3 := mu_splice_lt (hr c0 hc0) hlook hnot
     rw [hrest, mu_append]
     simp only [mu] at h1
     omega
-  | take k c0 tl hdrop hel hpre hrest =>
-    have h1 := mu_take_drop T s.rest k
+  | take c0 tl hdrop hel hpre hrest =>
+    have h1 := mu_take_drop T s.rest (skipLen s.rest)
     rw [hdrop] at h1
     have h2 := mu_take_drop T tl ((lexTok (c0 :: tl)).len - 1)
     have h3 := weight_pos T c0
